@@ -257,7 +257,7 @@ def journal_cases(shard):
     tier, seed, n, i = shard['tier'], shard['seed'], shard['n'], shard['i']
     rng = random.Random(f'{seed}:c17cases')
     cases = []
-    cap = harness.scale(120, 20000, tier)
+    cap = harness.scale(120, 6000, tier)
     for k, names in enumerate(all_pairs()):
         cases.append(dict(names=list(names), scen=k % c15.N_SCEN, cap=cap, offset=0))
         if tier != 'quick' or k % 4 == 0:
@@ -506,6 +506,11 @@ def run_shard(sink, tier, seed, shard):  # noqa: C901
                                    (d.get('stderr_tail') or '')[-2000:])
         if log_path:
             for rep in sanlog.collect(log_path):
+                if variant == 'tsan' and rep['frame'] == 'no-repo-frame':
+                    # TSan only sees the instrumented extension; races it reports entirely inside the
+                    # uninstrumented interpreter / dynamic loader (e.g. dl TLS allocation) are noise
+                    sink.count('tsan-reports-outside-the-engine', rep['count'])
+                    continue
                 sink.violation(f'sanitizer/{rep["kind"]}/{rep["frame"]}', f'no {variant} report under concurrent use', dict(variant=variant, reports=rep['count']), rep['text'][:1800])
         sink.count(f'variant:{variant}')
     sink.extra['distinct_schedule_traces'] = len(sink.fingerprints)
